@@ -40,6 +40,7 @@ def run(prog, chk):
     chk.rule(writer_is_read_only, prog, chk)
     chk.rule(graphics_vocabulary, prog, chk)
     chk.rule(inner_events_guard, prog, chk)
+    chk.rule(passthrough_one_to_one, prog, chk)
     chk.rule(no_precheck, prog, chk)
     chk.rule(unreadable_tag_stays_raw, prog, chk)
     chk.rule(clip_lookup_needs_a_box, prog, chk)
@@ -564,6 +565,29 @@ def qualified_names(prog, chk):
         chk.bad("A16.qualified-names", f"{b.short}:{c.path.split('::')[-1]}", b.where(bb, t.get("line")), f"{b.short} takes an element name with {c.path.split('::')[-1]}(): start/empty tags and end tags no longer spell prefixed names alike")
     if not uses:
         chk.ok("A16.qualified-names", "scan", "src/events.rs", f"{names} name() calls, no local_name()/prefix()")
+
+
+def passthrough_one_to_one(prog, chk):
+    """real SVG is handed to the writer by converting the input events one by one (`From<InputList> for OutputList`):
+    the list conversion builds no event of its own and looks at no neighbour - it cannot merge `<g></g>` into `<g/>`,
+    drop an event or add one"""
+    b = prog.maybe_body("<svgdx::events::OutputList as std::convert::From<svgdx::events::InputList>>::from")
+    if b is None:
+        chk.anchor_missing("A16.passthrough-one-to-one", "impl From<InputList> for OutputList not found")
+        return
+    chk.touch(b)
+    scope = [b] + list(prog.closures_of(b))
+    built = [(bd, x) for bd in scope for x, i, s_ in bd.all_stmts() if s_.get("rv", {}).get("k") == "aggr" and s_["rv"].get("adt") == "svgdx::events::OutputEvent"]
+    peeks = [(bd, x) for bd in scope for (x, t, c) in bd.call_sites(lambda c: c.path.split("::")[-1] in ("peek", "peek_mut", "next_if", "windows", "tuple_windows", "chunks", "zip", "skip", "step_by", "filter", "filter_map", "skip_while", "take_while", "dedup_by"))]
+    nexts = [(bd, x) for bd in scope for (x, t, c) in bd.call_sites(lambda c: c.decl_path == "std::iter::Iterator::next")]
+    why = []
+    if built:
+        why.append(f"it builds OutputEvent values of its own ({built[0][0].where(built[0][1])})")
+    if peeks:
+        why.append(f"it looks ahead / drops / pairs events ({peeks[0][0].where(peeks[0][1])})")
+    if len(nexts) > 1:
+        why.append(f"it takes events from the input at {len(nexts)} places")
+    chk.ob(not why, "A16.passthrough-one-to-one", "From<InputList> for OutputList", b.where(), "the pass-through conversion maps every input event to the one output event its own conversion gives", "the conversion of the input event list into the output list is no longer one event for one event: " + "; ".join(why) + " - a passed-through document can come out with tags merged (`<text></text>` as `<text/>`), dropped or added")
 
 
 def inner_events_guard(prog, chk):
